@@ -62,7 +62,7 @@ def holds(op, t, a, b):
 class Check:
     id = PROP
     level = "exploration"
-    cases = {"quick": 700, "thorough": 40000}
+    cases = {"quick": 4000, "thorough": 40000}
     simulated_time = "per case one simulated instant (frozen, or ticking 1 ms per clock read within one local day) drawn from: seconds around local midnight, DST-change days, 29 Feb, 31 Dec/1 Jan, 31st of a month; zones UTC, Europe/Berlin, America/New_York, Asia/Kolkata"
     rule = ("case = (literal at day/hour/minute/second precision with '-' or ':' date separators, quoted or (day precision) unquoted, or a relative literal today/yesterday/-N/+N) x zone x simulated clock instant "
             "x files whose mtimes sit on the edge grid a-1,a,a+1,b-1,b,b+1 plus month/year/leap boundaries x arrival order; each case runs all six comparison operators. "
